@@ -353,7 +353,8 @@ def main():
 
     if page_parser.decoder:
         logger.info(page_parser.decoder.decoding_summary())
-    logger.info(f'AVERAGE PROCESSING TIME {(time.time() - t_start) / len(ids_to_process)}')
+    if ids_to_process:
+        logger.info(f'AVERAGE PROCESSING TIME {(time.time() - t_start) / len(ids_to_process)}')
 
 
 if __name__ == "__main__":
